@@ -67,7 +67,7 @@ theorem decHeadStrict_repro (b : Bytes) {mt ai arg : Nat} {r : Bytes}
         obtain ⟨hnb, hb⟩ := wide_tail t _ arg r (by omega) harg hr
         have hdec : decHead (x :: t) = some (mt, ai, arg, r) := by
           simp only [decHead, hc, argWidth, ↓reduceIte, Nat.reduceEqDiff]
-          rw [if_neg (by omega), if_neg hlen]; simp [hmt, hai, harg, hr]
+          rw [if_neg (by omega), if_neg (by omega), if_neg hlen]; simp [hmt, hai, harg, hr]
         refine ⟨?_, by omega, by intro _ h24; omega, hdec, by omega⟩
         unfold encHead
         rw [← hmt])
